@@ -760,7 +760,11 @@ class SQLParser(Parser):
 
     @_('INTEGER')
     def integer(self, p):
-        return int(p[0])
+        try:
+            return int(p[0])
+        except ValueError:
+            # python limits the number of digits that can be converted
+            raise ParsingException(f'Integer is too long: {p[0][:20]}...')
 
     @_('QUOTE_STRING')
     def quote_string(self, p):
